@@ -208,8 +208,7 @@ def igRelease (p : Proc) (s : St) (n : Node) (g : IgSt) : List Tok × St :=
   let act := g.activated.getD 0
   let nonDefault := n.outs.filter (fun f => some f != n.dflt)
   let (ev, s) := evalFlows p s nonDefault false
-  let chosen := ev.filter (·.2) |>.map (·.1)
-  let chosen := if chosen.isEmpty then (n.dflt.map ([·])).getD [] else chosen
+  let chosen := Gateway.igDecide ev n.dflt
   let s := igSet s { gw := n.id }
   if chosen.isEmpty then
     -- error trace; nobody is answered: every waiting token stays parked for ever
@@ -273,10 +272,9 @@ def arrive (cfg : Cfg) (p : Proc) (s : St) (t : Tok) : List Tok × St :=
     | .xor =>
       let nonDefault := n.outs.filter (fun f => some f != n.dflt)
       let (ev, s) := evalFlows p s nonDefault false
-      match (ev.filter (·.2)).head?, n.dflt with
-      | some (fl, _), _ => let (toks, _, s) := selectFlows cfg p s t [fl] true; (toks, s)
-      | none, some d => let (toks, _, s) := selectFlows cfg p s t [d] true; (toks, s)
-      | none, none => ([], { (s.emit (.err "noeffective-exclusive")) with parked := s.parked ++ [t] })
+      match Gateway.xgDecide ev n.dflt with
+      | .take fl => let (toks, _, s) := selectFlows cfg p s t [fl] true; (toks, s)
+      | .error => ([], { (s.emit (.err "noeffective-exclusive")) with parked := s.parked ++ [t] })
     | .par =>
       let cur := ((s.pg.find? (·.1 == n.id)).map (·.2)).getD []
       let cur := cur ++ [t.fid]
